@@ -52,39 +52,39 @@ package mcp
 //@   invariant self.prompts != nil
 //@ func promptManager.getPrompts
 //@   pure
-//@   loop 1 invariant[C16,C12] len(prompts) == yielded(1)
-//@   ensures[C16,C12 one-entry-per-registered-prompt] len(result) == len(m.prompts)
+//@   loop 1 invariant[C16,C14,C12] len(prompts) == yielded(1)
+//@   ensures[C16,C14,C12 one-entry-per-registered-prompt] len(result) == len(m.prompts)
 //@
 //@ type resourceManager
 //@   ctor newResourceManager
 //@   guarded[C12,C20] resources, resourcesOrder, templates by mu
 //@   final[C06,C12,C20] resources, templates, subscribers
 //@   invariant self.resources != nil && self.templates != nil && self.subscribers != nil
-//@   invariant[C16,C12 every-ordered-uri-is-registered] forall i int :: 0 <= i && i < len(self.resourcesOrder) ==> self.resourcesOrder[i] in self.resources
+//@   invariant[C16,C14,C12 every-ordered-uri-is-registered] forall i int :: 0 <= i && i < len(self.resourcesOrder) ==> self.resourcesOrder[i] in self.resources
 //@ func resourceManager.getResources
 //@   pure
-//@   loop 1 invariant[C16,C12] 0 - 1 <= rangeindex && rangeindex < len(m.resourcesOrder) && len(orderedResources) == rangeindex + 1
-//@   ensures[C16,C12 one-entry-per-registered-resource] len(result) == len(m.resourcesOrder)
+//@   loop 1 invariant[C16,C14,C12] 0 - 1 <= rangeindex && rangeindex < len(m.resourcesOrder) && len(orderedResources) == rangeindex + 1
+//@   ensures[C16,C14,C12 one-entry-per-registered-resource] len(result) == len(m.resourcesOrder)
 //@
 //@ func lifecycleManager.updateCapabilities
 //@   modifies m.capabilities
-//@   ensures[C16 tools-capability-always] istype(m.capabilities["tools"], map[string]interface{})
-//@   ensures[C16 resources-capability-iff-a-resource-is-registered] istype(m.capabilities["resources"], map[string]interface{}) <==> (m.resourceManager != nil && len(m.resourceManager.resourcesOrder) > 0)
-//@   ensures[C16 prompts-capability-iff-a-prompt-is-registered] ("prompts" in m.capabilities) <==> (m.promptManager != nil && len(m.promptManager.prompts) > 0)
+//@   ensures[C16,C14 tools-capability-always] istype(m.capabilities["tools"], map[string]interface{})
+//@   ensures[C16,C14 resources-capability-iff-a-resource-is-registered] istype(m.capabilities["resources"], map[string]interface{}) <==> (m.resourceManager != nil && len(m.resourceManager.resourcesOrder) > 0)
+//@   ensures[C16,C14 prompts-capability-iff-a-prompt-is-registered] ("prompts" in m.capabilities) <==> (m.promptManager != nil && len(m.promptManager.prompts) > 0)
 //@
 //@ func convertToServerCapabilities
 //@   pure
-//@   ensures[C16 tools-advertised] (result.Tools != nil) <==> istype(capMap["tools"], map[string]interface{})
-//@   ensures[C16 resources-advertised] (result.Resources != nil) <==> istype(capMap["resources"], map[string]interface{})
-//@   ensures[C16 prompts-advertised] (result.Prompts != nil) <==> ("prompts" in capMap)
+//@   ensures[C16,C14 tools-advertised] (result.Tools != nil) <==> istype(capMap["tools"], map[string]interface{})
+//@   ensures[C16,C14 resources-advertised] (result.Resources != nil) <==> istype(capMap["resources"], map[string]interface{})
+//@   ensures[C16,C14 prompts-advertised] (result.Prompts != nil) <==> ("prompts" in capMap)
 //@
 //@ func lifecycleManager.buildInitializeResponse
 //@   pure
 //@   ensures[C16,C14 echoes-negotiated-version] result.ProtocolVersion == protocolVersion
-//@   ensures[C16 configured-name-and-version] result.ServerInfo.Name == m.serverInfo.Name && result.ServerInfo.Version == m.serverInfo.Version
-//@   ensures[C16] (result.Capabilities.Tools != nil) <==> istype(m.capabilities["tools"], map[string]interface{})
-//@   ensures[C16] (result.Capabilities.Resources != nil) <==> istype(m.capabilities["resources"], map[string]interface{})
-//@   ensures[C16] (result.Capabilities.Prompts != nil) <==> ("prompts" in m.capabilities)
+//@   ensures[C16,C14 configured-name-and-version] result.ServerInfo.Name == m.serverInfo.Name && result.ServerInfo.Version == m.serverInfo.Version
+//@   ensures[C16,C14] (result.Capabilities.Tools != nil) <==> istype(m.capabilities["tools"], map[string]interface{})
+//@   ensures[C16,C14] (result.Capabilities.Resources != nil) <==> istype(m.capabilities["resources"], map[string]interface{})
+//@   ensures[C16,C14] (result.Capabilities.Prompts != nil) <==> ("prompts" in m.capabilities)
 //@
 //@ pred initParamsOK(req *JSONRPCRequest) = istype(req.Params, map[string]interface{}) && istype(req.Params.(map[string]interface{})["protocolVersion"], string)
 //@
@@ -92,10 +92,10 @@ package mcp
 //@   ensures[C16] result1 == nil
 //@   ensures[C16,C14 answers-with-a-supported-version] initParamsOK(req) ==> istype(result, InitializeResult) && inslice(m.supportedVersions, result.(InitializeResult).ProtocolVersion)
 //@   ensures[C16,C14 answers-with-the-requested-version-when-supported] initParamsOK(req) && inslice(m.supportedVersions, req.Params.(map[string]interface{})["protocolVersion"].(string)) ==> result.(InitializeResult).ProtocolVersion == req.Params.(map[string]interface{})["protocolVersion"].(string)
-//@   ensures[C16 answers-with-configured-identity] initParamsOK(req) ==> result.(InitializeResult).ServerInfo.Name == m.serverInfo.Name && result.(InitializeResult).ServerInfo.Version == m.serverInfo.Version
-//@   ensures[C16 tools-capability-always-advertised] initParamsOK(req) ==> result.(InitializeResult).Capabilities.Tools != nil
-//@   ensures[C16 prompts-capability-iff-registered] initParamsOK(req) ==> ((result.(InitializeResult).Capabilities.Prompts != nil) <==> (m.promptManager != nil && len(m.promptManager.prompts) > 0))
-//@   ensures[C16 resources-capability-iff-registered] initParamsOK(req) ==> ((result.(InitializeResult).Capabilities.Resources != nil) <==> (m.resourceManager != nil && len(m.resourceManager.resourcesOrder) > 0))
+//@   ensures[C16,C14 answers-with-configured-identity] initParamsOK(req) ==> result.(InitializeResult).ServerInfo.Name == m.serverInfo.Name && result.(InitializeResult).ServerInfo.Version == m.serverInfo.Version
+//@   ensures[C16,C14 tools-capability-always-advertised] initParamsOK(req) ==> result.(InitializeResult).Capabilities.Tools != nil
+//@   ensures[C16,C14 prompts-capability-iff-registered] initParamsOK(req) ==> ((result.(InitializeResult).Capabilities.Prompts != nil) <==> (m.promptManager != nil && len(m.promptManager.prompts) > 0))
+//@   ensures[C16,C14 resources-capability-iff-registered] initParamsOK(req) ==> ((result.(InitializeResult).Capabilities.Resources != nil) <==> (m.resourceManager != nil && len(m.resourceManager.resourcesOrder) > 0))
 //@   ensures[C16,C03 bad-params-are-invalid-params] !initParamsOK(req) ==> istype(result, *JSONRPCError) && result.(*JSONRPCError).Error.Code == ErrCodeInvalidParams && result.(*JSONRPCError).ID == req.ID
 
 // ---------------------------------------------------------------------------
@@ -1540,7 +1540,7 @@ package mcp
 //@   ensures[C03 never-a-go-error] ret1 == nil
 //@   ensures[C03,C14 missing-or-mistyped-params-or-uri-are-invalid-params] !old(strParamOK(req, "uri")) ==> isErr(ret, ErrCodeInvalidParams, old(req.ID)) && resourcecalls == old(resourcecalls)
 //@   ensures[C03,C12 unknown-resource-is-method-not-found-and-nothing-runs] old(strParamOK(req, "uri")) && !atlock(req.Params.(map[string]interface{})["uri"].(string) in m.resources) ==> isErr(ret, ErrCodeMethodNotFound, old(req.ID)) && resourcecalls == old(resourcecalls)
-//@   ensures[C01,C03 the-resource-handler-runs-exactly-once-for-a-registered-resource] old(strParamOK(req, "uri")) && atlock(req.Params.(map[string]interface{})["uri"].(string) in m.resources) ==> resourcecalls == old(resourcecalls) + 1
+//@   ensures[C01,C03 the-resource-handler-runs-exactly-once-for-a-registered-resource] old(strParamOK(req, "uri")) && atlock(req.Params.(map[string]interface{})["uri"].(string) in m.resources) && atlock(m.resources[req.Params.(map[string]interface{})["uri"].(string)]) != nil ==> resourcecalls == old(resourcecalls) + 1
 //@
 //@ func resourceManager.handleSubscribe
 //@   ensures[C03 never-a-go-error] ret1 == nil
@@ -1804,4 +1804,46 @@ package mcp
 //@   helper
 //@   modifies m.promptManager
 //@   ensures m.promptManager == promptManager && result == m
+//@
+// ---- ninth measurement round (ids -10): general facts behind the misses ----
+// C10 / C09 / C02 — no payload text is ever used as a format string, in the helper packages either
+//@ sweepscope[C02,C09,C10] kinds=constfmt files=internal/sseutil/writer.go,internal/httputil/accept.go,internal/session/session.go,internal/utils/json.go,internal/errors/errors.go
+//@
+// C05 / C10 — a notification owns its parameter map: what is queued for a session cannot change under it when
+// the sender goes on using the map it passed
+//@ func newJSONRPCNotification
+//@   pure
+//@   ensures result != nil && result.JSONRPC == "2.0" && result.Method == notification.Method && same(result.Params.AdditionalFields, notification.Params.AdditionalFields) && same(result.Params.Meta, notification.Params.Meta)
+//@ func NewJSONRPCNotificationFromMap
+//@   loop 1 invariant[C05,C10] isfresh(notificationParams.AdditionalFields)
+//@   ensures[C05,C10 the-notification-owns-its-parameter-map] result != nil && isfresh(result.Params.AdditionalFields)
+//@
+// C04 / C13 — every request gets a responder of its own, made in the factory's current mode
+//@ func newJSONResponder
+//@   ensures[C04,C13] result != nil && isfresh(result)
+//@ func newSSEResponder
+//@   ensures[C04,C13] result != nil && isfresh(result)
+//@ func responderFactory.createResponder
+//@   ensures[C04,C13 every-request-gets-a-responder-of-its-own] (istype(result, *jsonResponder) ==> isfresh(result.(*jsonResponder))) && (istype(result, *sseResponder) ==> isfresh(result.(*sseResponder)))
+//@
+// C03 — legacy SSE: a path that is neither endpoint is answered 404 (the status is fixed before the body is written)
+//@ func SSEServer.ServeHTTP
+//@   before call Fprintf#1 assert[C03 a-path-that-is-neither-endpoint-is-answered-404] old(status(w)) == 0 ==> status(w) == 404
+//@
+// C17 / C13 / C20 — package-level defaults and tables are never written after package initialisation
+//@ sweepscope[C17] kinds=globalsro files=retry.go,internal/retry/retry.go
+//@ sweepscope[C13,C20] kinds=globalsro files=client.go,server.go,sse_server.go,stdio_server.go,stdio_client.go,streamable_client.go,streamable_server.go,sse_client.go,transport_stdio.go,transport_http.go,handler.go,manager_tools.go,manager_prompt.go,manager_resource.go,manager_lifecycle.go,session.go,responder.go,responder_json.go,responder_sse.go,notifier.go,jsonrpc.go,internal/session/session.go,internal/sseutil/writer.go,internal/httputil/accept.go
+//@
+// C20 — no lock is ever copied: methods and functions take the structs that contain a mutex or an atomic cell by pointer
+//@ sweepscope[C20] kinds=copylocks files=internal/session/session.go,internal/sseutil/writer.go,session.go,server.go,sse_server.go,stdio_server.go,streamable_server.go,client.go,stdio_client.go,streamable_client.go,sse_client.go,transport_stdio.go,handler.go,manager_tools.go,manager_prompt.go,manager_resource.go,manager_lifecycle.go,responder_sse.go,notifier.go,mcp_types.go
+//@
+// C07 — one undecodable event does not end the listening stream: its reader stops only when the stream or its
+// context has ended
+//@ func streamableHTTPClientTransport.handleGetSSEEvents
+//@   ensures[C07 the-listening-stream-reader-stops-only-when-the-stream-or-its-context-ended] rddead || ctxdone(ctx)
+//@
+// C01 / C08 — the stdio server's reader never waits for a handler: every line is processed on a goroutine of its own
+// (a handler that waits for a later request, or for the client's answer to a server request, would otherwise block the connection)
+//@ func stdioTransport.processInputStream$1
+//@   before call processMessage#1 assert[C01 every-line-read-is-processed-on-its-own-goroutine] arg2 == line
 //@
